@@ -75,6 +75,10 @@ def check(ctx):
         cls = P.cls(p.cls)
         params = set(cls.init_params())
         I, st, o, res = protocols.run(ctx, p)
+        # readers (everything but fit / set_params / __init__) leave the fitted state as they found it:
+        # the attribute terms recorded around each call must be the same objects
+        for meth_, changed_ in getattr(I, "_reader_changes", []):
+            ctx.ob("R-PURE", f"{p.name}.{meth_} leaves the fitted attributes untouched", not changed_, f"attributes rewritten by a reader: {changed_}" if changed_ else "no fitted attribute changed", ctx.site(P.method(cls, meth_)) if cls.find_method(meth_) is not None and not getattr(cls.find_method(meth_).cls, "external", False) else f"{p.cls}.{meth_}", p.name)
         for meth, r, lo, hi in res:
             entry = f"{p.name}.{meth}"
             nmut += _pure(ctx, I, lo, hi, entry, None)
@@ -288,6 +292,7 @@ def _reset(ctx, N):
         cases.append((f"OrthogonalRegression: projector={p1_} then {not p1_}", "skmatter.linear_model.OrthogonalRegression", {"use_orthogonal_projector": p1_}, X1y1, Xy, [("M", "<", "P"), ("M1", "<", "P1")], {"use_orthogonal_projector": not p1_}))
     for m1_, m2_ in (("tikhonov", "cutoff"), ("cutoff", "tikhonov")):
         cases.append((f"Ridge2FoldCV: {m1_} then {m2_}", "skmatter.linear_model.Ridge2FoldCV", {"alphas": arr("alphas", "G"), "regularization_method": m1_}, X1y1, Xy, [], {"regularization_method": m2_}))
+    cases.append(("Ridge2FoldCV: scoring changed between the fits", "skmatter.linear_model.Ridge2FoldCV", {"alphas": arr("alphas", "G"), "scoring": "neg_mean_squared_error"}, X1y1, Xy, [], {"scoring": "r2"}))
     cases.append(("QuickShift: cut-off then Gabriel shells", "skmatter.clustering.QuickShift", {"dist_cutoff_sq": arr("cutoffs", "N1")}, ((arr("X1", "N1", "F"),), {"samples_weight": arr("w1", "N1")}), ((arr("X", "N", "F"),), {"samples_weight": arr("w", "N")}), [], {"dist_cutoff_sq": None, "gabriel_shell": integer("shell")}))
     cases.append(("QuickShift: Gabriel shells then cut-off", "skmatter.clustering.QuickShift", {"gabriel_shell": integer("shell")}, ((arr("X1", "N1", "F"),), {"samples_weight": arr("w1", "N1")}), ((arr("X", "N", "F"),), {"samples_weight": arr("w", "N")}), [], {"dist_cutoff_sq": arr("cutoffs", "N"), "gabriel_shell": None}))
     for pkg, S in (("feature", "M"), ("sample", "N")):
